@@ -1569,25 +1569,29 @@ package ast
 //@   nopanic
 //@   modifies Assignment.Variable
 //@ func (e *Constant) AcceptIntegerLiteral(fun) ()
-//@   serves C17 C20 C07
+//@   serves C17 C20 C07 C05
 //@   requires e != nil && fun != nil
 //@   nopanic
 //@   modifies Constant.Value
+//@   ensures[C05] value: e.Value.kind == 6
 //@ func (e *Constant) AcceptStringLiteral(fun) ()
-//@   serves C17 C20 C07
+//@   serves C17 C20 C07 C05
 //@   requires e != nil && fun != nil
 //@   nopanic
 //@   modifies Constant.Value
+//@   ensures[C05] value: e.Value.kind == 24 && e.Value.s == fun.String
 //@ func (e *Constant) AcceptFloatLiteral(fun) ()
-//@   serves C17 C20 C07
+//@   serves C17 C20 C07 C05
 //@   requires e != nil && fun != nil
 //@   nopanic
 //@   modifies Constant.Value
+//@   ensures[C05] value: e.Value.kind == 14 && e.Value.f == fun.Float
 //@ func (e *Constant) AcceptBooleanLiteral(fun) ()
-//@   serves C17 C20 C07
+//@   serves C17 C20 C07 C05
 //@   requires e != nil && fun != nil
 //@   nopanic
 //@   modifies Constant.Value
+//@   ensures[C05] value: e.Value.kind == 1 && e.Value.b == fun.Boolean
 //@ func (e *Expression) AcceptExpression(exp) (err)
 //@   serves C17 C20 C07
 //@   requires e != nil
